@@ -1,4 +1,5 @@
 import ConcVerif.Proof.Trigger
+import ConcVerif.Proof.TriggerLive
 /-! # C11 — TriggerVariable waits end only on their event, and the event wakes them
 
 All statements are over `Reachable a s` (`a` = constructed active or not): every accepted event sequence
@@ -522,5 +523,78 @@ example : ∃ s, Reachable true s ∧ s.pc 1 = .rUnlock true ∧ s.lock .act = s
 example : ∃ s, Reachable true s ∧ s.hist = [.clear 0, .setActive 0, .setTrig 1] ++ HEv.setInactive 1 :: [] ∧
     s.flag .act = false ∧ s.flag .trig = true :=
   ⟨_, ⟨resetTrace, rfl⟩, by decide, by decide, by decide⟩
+
+/-! ## Liveness under the proviso: while the variable stays armed and fired every waiter returns — for every scheduler
+
+`stepP` (Proof/TriggerLive.lean) is `step` without the clear step of `activate()` and the set-inactive step of
+`reset()`: the executions in which "the variable is not re-activated (nor reset) while they are still
+blocked".  From a reachable state with `activated = triggered = true`:
+* `C11_armed_progress` (deadlock-freedom): if some thread is inside a call and no thread stands right
+  before one of the two excluded steps, some thread has an enabled non-`call` step;
+* `C11_armed_terminates` (no livelock, Base/Live.lean): such an execution that makes no further `call`
+  cannot be infinite — the summed rank of the threads strictly decreases with every step, spurious
+  wake-ups and time-outs included; `C11_armed_bounded_run` is the quantitative form.
+Hence every maximal proviso-respecting execution with finitely many calls ends with every thread returned
+(`C11_armed_stuck_all_returned`).  No fairness is assumed.  What is NOT covered, and is not true of the code:
+termination without the proviso (`C11_proviso_needed`; and `reset()`'s loop spins for as long as an
+`activate()` that has cleared `triggered` is kept from setting `activated`). -/
+
+/-- deadlock-freedom while armed and fired: if some thread is inside a call, some thread can take a
+non-`call` step that respects the proviso -/
+theorem C11_armed_progress {a : Bool} {s : St} (h : Reachable a s) (hfa : s.flag .act = true)
+    (hft : s.flag .trig = true) (hno : ∀ u, s.pc u ≠ .aClear ∧ s.pc u ≠ .rStore)
+    {t : Tid} (ht : s.pc t ≠ .idle) : ∃ u e, isCall e = false ∧ (stepP s u e).isSome = true := by
+  have same : ∀ u e, stepP s u e = step s u e := by
+    intro u e; unfold stepP; split
+    · rename_i hx; exact absurd hx (hno u).1
+    · rename_i hx; exact absurd hx (hno u).2
+    · rfl
+  have noncall : ∀ u e, s.pc u ≠ .idle → (step s u e).isSome = true → isCall e = false := by
+    intro u e hu he
+    cases hc : isCall e with
+    | false => rfl
+    | true => exact absurd (call_only_idle hc he) hu
+  rcases C11_thread_progress h ht with ⟨e, _, he⟩ | ⟨m, u, hl, _, e, _, he⟩ | ⟨k, _, _, _, hf⟩
+  · exact ⟨t, e, noncall t e ht he, by rw [same]; exact he⟩
+  · have hne : s.pc u ≠ .idle := by
+      intro hid
+      have := ((inv_reachable h).l.holder m u).2 hl
+      simp [hid, Pc.holds] at this
+    exact ⟨u, e, noncall u e hne he, by rw [same]; exact he⟩
+  · cases hk : k.side <;> simp [hk, hfa, hft] at hf
+
+/-- no livelock while armed and fired: a proviso-respecting execution whose state at step `N` is reachable
+with both flags true and which makes no `call` from `N` on (threads drawn from any finite list `ts`) cannot
+be infinite -/
+theorem C11_armed_terminates {a : Bool} (x : Live.Exec stepP) (N : Nat)
+    (hr : Reachable a (x.σ N)) (hfa : (x.σ N).flag .act = true) (hft : (x.σ N).flag .trig = true)
+    (ts : List Tid) (hnd : ts.Nodup) (hts : ∀ n, N ≤ n → x.who n ∈ ts)
+    (hnc : ∀ n, N ≤ n → isCall (x.ev n) = false) : False :=
+  Live.no_infinite_run ranked ts hnd x N ⟨inv_reachable hr, hfa, hft⟩ hts hnc
+
+/-- quantitative form: from a reachable armed-and-fired state, a proviso-respecting trace with `c` calls has
+at most `(total rank) + 7·c` steps -/
+theorem C11_armed_bounded_run {a : Bool} {s s' : St} (hr : Reachable a s) (hfa : s.flag .act = true)
+    (hft : s.flag .trig = true) (ts : List Tid) (hnd : ts.Nodup) {es : List (Tid × Ev)}
+    (hts : ∀ y ∈ es, y.1 ∈ ts) (hrun : runFrom stepP s es = some s') :
+    es.length + Live.total μ ts s' ≤ Live.total μ ts s + 7 * Live.calls isCall es :=
+  Live.bounded_run ranked ts hnd ⟨inv_reachable hr, hfa, hft⟩ hts hrun
+
+/-- a reachable armed-and-fired state in which no non-`call` step is enabled (and nobody stands before a
+re-arming step) has every thread returned -/
+theorem C11_armed_stuck_all_returned {a : Bool} {s : St} (h : Reachable a s) (hfa : s.flag .act = true)
+    (hft : s.flag .trig = true) (hno : ∀ u, s.pc u ≠ .aClear ∧ s.pc u ≠ .rStore)
+    (hstuck : ∀ u e, isCall e = false → (stepP s u e).isSome = false) (t : Tid) : s.pc t = .idle := by
+  apply Classical.byContradiction
+  intro ht
+  obtain ⟨u, e, hc, he⟩ := C11_armed_progress h hfa hft hno ht
+  rw [hstuck u e hc] at he
+  contradiction
+
+/-- non-vacuity: right after the successful `trigger()` of `waitTrace` the state is armed and fired, nobody
+stands before a re-arming step, thread 1 still sleeps, and the proviso-respecting step that wakes it is enabled -/
+example : ∃ s, Reachable true s ∧ s.flag .act = true ∧ s.flag .trig = true ∧ s.pc 1 = .wSleep .wait ∧
+    s.pc 2 = .tRet true ∧ (stepP s 1 (.cwk .trig .notified)).isSome = true ∧ μ s 1 = 5 :=
+  ⟨_, ⟨waitTrace.take 12, rfl⟩, by decide, by decide, by decide, by decide, by decide, by decide⟩
 
 end ConcVerif.Trigger
